@@ -16,7 +16,7 @@
 (* The actions below ARE the CodeView; the invariants say CodeView agrees  *)
 (* with PropertyView in every reachable state.                             *)
 (***************************************************************************)
-EXTENDS Chess
+EXTENDS Draws
 
 VARIABLES pos,      \* Chess!Position
           stack,    \* sequence of saved [pos, key, acc, mv, captured]
@@ -256,30 +256,16 @@ UndoRestores ==
 (***************************************************************************)
 (* Repetition and the fifty-move rule (C11)                                *)
 (***************************************************************************)
-Irreversible(h) == h.mv.kind # -1 /\ (h.mv.kind \in {1, 2} \/ KindOf(At(h.pos.board, h.mv.from)) = Pawn)
-
-\* PropertyView: an identical position occurred earlier since the last capture or
-\* pawn move.  Scans the saved states from the most recent backwards and stops at the
-\* first irreversible move.
-RECURSIVE RepScan(_, _, _)
-RepScan(p, st, i) ==
-    IF i = 0 THEN FALSE
-    ELSE IF Irreversible(st[i]) THEN FALSE
-    ELSE IF Identity(st[i].pos) = Identity(p) THEN TRUE
-    ELSE RepScan(p, st, i - 1)
-RepeatedPV(p, st) == RepScan(p, st, Len(st))
+\* Irreversible, RepScan, RepeatedPV (the rule-book definitions) live in Draws.tla.
 
 \* CodeView: any of the last `halfmove clock' saved keys equals the current key.
 RepeatedCV(p, k, st) ==
     \E i \in 1..Len(st) : i > Len(st) - p.hmc /\ st[i].key = k
 
-NullFree(st) == \A i \in 1..Len(st) : st[i].mv.kind # -1
-EarlierIdentical(p, st) == \E i \in 1..Len(st) : Identity(st[i].pos) = Identity(p)
 
 \* On null-free histories whose saved clocks are consistent with their length the window
 \* rule coincides with the rule-book definition.
 WindowRule == NullFree(stack) => (RepeatedCV(pos, key, stack) <=> RepeatedPV(pos, stack))
 WindowSound == RepeatedCV(pos, key, stack) => EarlierIdentical(pos, stack)
 
-FiftyPV(p) == p.hmc >= 100 /\ Legal(p) # {}
 =============================================================================
